@@ -76,6 +76,8 @@ MUTANTS = [
     ("one-way-bridge", NODE, "            self._bridged_nodes.append(test_node)\n            test_node._bridged_nodes.append(self)", "            self._bridged_nodes.append(test_node)", "1"),
     ("counters-not-shared", NODE, "                node._dropped_cleanup_nodes = test_node._dropped_cleanup_nodes\n", "", "1g"),
     ("registers-adopted-by-self-only", NODE, "                pending.extend(node._bridged_nodes)\n", "", "1g"),
+    ("registers-adopted-by-other-peers-only", NODE, "            bridged, pending = [], [self]\n            while len(pending) > 0:\n                node = pending.pop()\n                if any(node is b for b in bridged):\n                    continue\n                bridged.append(node)\n                pending.extend(node._bridged_nodes)\n", "            for node in (self, *test_node._bridged_nodes):\n", "1g"),
+    ("P-worklist-from-the-other-node", NODE, "            bridged, pending = [], [self]\n", "            bridged, pending = [], [test_node]\n", None),
     ("non-equivalent-accepted", NODE, "        elif not re.search(test_node.bridged_form, self.params[\"name\"]):\n            raise ValueError(f\"Cannot bridge {self} with non-equivalent {test_node}\")\n", "", "1"),
     ("register-copied", NODE, "                node._picked_by_setup_nodes = test_node._picked_by_setup_nodes\n", "                node._picked_by_setup_nodes = EdgeRegister()\n", "1"),
     ("bridge-first-only", G, "            for bridge in old_bridges:\n                test_node.bridge_with_node(bridge)", "            for bridge in old_bridges[:1]:\n                test_node.bridge_with_node(bridge)", "2"),
